@@ -52,8 +52,8 @@ def concrete_kinds(m: Model, with_funcdef=True) -> list[str]:
         elif k == m.NAMES:
             continue
         out.append(k)
-    if len(out) < 20:
-        raise AnalysisError(f"only {len(out)} concrete node kinds found (floor 20)")
+    if len(out) < 14:
+        raise AnalysisError(f"only {len(out)} concrete node kinds found (floor 14)")
     return out
 
 
